@@ -338,6 +338,10 @@ type conformJob struct {
 	iface *Contract // the contract on the interface method
 	impl  *Contract // the implementation's own contract
 	fn    *ssa.Function
+	// a method promoted from an embedded struct: the implementing (outer) type and
+	// the field path from it to the embedded struct that declares the method
+	outer     types.Type
+	outerPath []int
 }
 
 func (e *Engine) runFn(fn *ssa.Function) (res *FnResult) { return e.runJob(fn, nil) }
@@ -351,12 +355,17 @@ func (e *Engine) runJob(fn *ssa.Function, cj *conformJob) (res *FnResult) {
 	if cj != nil {
 		res.Fn = "conform:" + fn.String() + "<:" + cj.iface.Key
 		res.Short = shortFnName(fn) + "<:" + cj.iface.Key[strings.LastIndex(cj.iface.Key, "/")+1:]
+		if cj.outer != nil {
+			res.Short = shortFnName(fn) + "[in " + typeName(cj.outer) + "]<:" + cj.iface.Key[strings.LastIndex(cj.iface.Key, "/")+1:]
+			res.Fn += "[" + typeName(cj.outer) + "]"
+		}
 	}
 	var fc *FnCtx
 	run := func(discovery bool, prev *FnCtx) (fc *FnCtx, err string) {
 		fc = e.newFnCtx(fn, discovery, prev)
 		if cj != nil {
 			fc.con, fc.conformImpl, fc.conformIface = cj.iface, cj.impl, true
+			fc.conformOuter, fc.conformOuterPath = cj.outer, cj.outerPath
 			fc.prefixOverride = res.Short
 		}
 		defer func() {
@@ -1060,6 +1069,36 @@ func (e *Engine) conformJobs(want map[string]bool, all bool) (jobs []*conformJob
 					}
 				}
 			}
+			var outer types.Type
+			var outerPath []int
+			if idx := sel.Index(); len(idx) > 1 {
+				// promoted through embedded structs: only by-value embeddings are modelled as interior pointers
+				ot := t
+				if pt, ok := ot.Underlying().(*types.Pointer); ok {
+					ot = pt.Elem()
+				}
+				cur, okPath := ot, true
+				for _, i := range idx[:len(idx)-1] {
+					st := structOf(cur)
+					if st == nil || isPointer(cur) && cur != ot {
+						okPath = false
+						break
+					}
+					f := st.Field(i)
+					if isPointer(f.Type()) {
+						okPath = false
+						break
+					}
+					if _, isI := f.Type().Underlying().(*types.Interface); isI {
+						okPath = false
+						break
+					}
+					cur = f.Type()
+				}
+				if okPath && fn.Signature.Recv() != nil && isPointer(fn.Signature.Recv().Type()) {
+					outer, outerPath = ot, idx[:len(idx)-1]
+				}
+			}
 			impl := e.contracts[fn.String()]
 			if impl != nil && (impl.Trusted || impl.IsIface) {
 				if e.inRepo(fn) {
@@ -1073,7 +1112,7 @@ func (e *Engine) conformJobs(want map[string]bool, all bool) (jobs []*conformJob
 					continue
 				}
 				if len(want) == 0 {
-					jobs = append(jobs, &conformJob{iface: ic, impl: nil, fn: fn})
+					jobs = append(jobs, &conformJob{iface: ic, impl: nil, fn: fn, outer: outer, outerPath: outerPath})
 				}
 				continue
 			}
@@ -1084,7 +1123,7 @@ func (e *Engine) conformJobs(want map[string]bool, all bool) (jobs []*conformJob
 				}
 			}
 			if selected {
-				jobs = append(jobs, &conformJob{iface: ic, impl: impl, fn: fn})
+				jobs = append(jobs, &conformJob{iface: ic, impl: impl, fn: fn, outer: outer, outerPath: outerPath})
 			}
 		}
 	}
